@@ -78,3 +78,19 @@ Proof.
   rewrite (L ds _ d []); [| cbn [P21Lex.rest]; rewrite ?app_length; cbn [length]; lia | exact Hd0 | exact Hds].
   rewrite Hq. cbn [negb andb snd fst]. reflexivity.
 Qed.
+
+(* two quotes with nothing between them are neither a BINARY nor an unset attribute: flagged, nothing assigned *)
+Theorem empty_binary_flagged rest c :
+  is_xdigit c = false -> N.eqb c DQUOTE = false ->
+  fst (read_binary (of_bytes (DQUOTE :: DQUOTE :: c :: rest)) SEVERITY_NULL true) = (None, SEVERITY_WARNING).
+Proof.
+  intros Hc Hq. unfold read_binary, of_bytes.
+  assert (W : s_ws (mkS (DQUOTE :: DQUOTE :: c :: rest) false false) = mkS (DQUOTE :: DQUOTE :: c :: rest) false false) by reflexivity.
+  rewrite W. change (good (mkS (DQUOTE :: DQUOTE :: c :: rest) false false)) with true. cbv iota.
+  unfold s_get at 1. change (good (mkS (DQUOTE :: DQUOTE :: c :: rest) false false)) with true. cbv iota. cbn [P21Lex.rest eofb failb].
+  change (N.eqb DQUOTE DQUOTE) with true. cbn [orb]. cbv iota.
+  unfold s_get at 1. change (good (mkS (DQUOTE :: c :: rest) false false)) with true. cbv iota. cbn [P21Lex.rest eofb failb].
+  cbn [hex_loop length]. change (good (mkS (c :: rest) false false)) with true.
+  change (is_xdigit DQUOTE) with false. cbn [andb]. cbv iota.
+  change (N.eqb DQUOTE DQUOTE) with true. cbn [negb andb]. reflexivity.
+Qed.
